@@ -172,6 +172,16 @@ CHECKS["C10"] = (
     "solver exception), per point. numba_newton_raphson (function uninterpreted, <=3 iterations, thorough 4): normal "
     "return only when the last step is below atol and rtol.", "DESIGN.md#c10",
     "That the returned roughness satisfies its equation to 1e-4 and monotonicity in U are NOT claimed.")
+CHECKS["C11"] = (
+    "With the roughness solver and the wind source term as arbitrary symbolic stand-ins (nf=2 x nd=3): the function "
+    "whose root is sought is sum gen(u10) df dtheta - target - sum over actively forced bins of dE/dt df dtheta, "
+    "evaluated at the trial wind and the guess direction with the roughness solved for that wind, and equals -target "
+    "at u10=0; zero integrated dissipation gives (0, guess direction); the point wrapper targets minus the integrated "
+    "dissipation, searches non-negative winds, returns the solver's root, reports NaN on any solver failure and always "
+    "reports the dissipation-weighted mean wave direction; each point of a batch gets its own spectrum/depth and the "
+    "peak equilibrium-range U10 as first guess. Non-degeneracy: a JONSWAP wind sea run on the real JITTED code gives a "
+    "finite wind that closes the balance to 2%.", "DESIGN.md#c11",
+    "Existence/convergence of the root and the 0.01 m/s accuracy are NOT claimed; the jitted witness is a concrete run.")
 NA = {}
 
 ALL = [f"C{i:02d}" for i in range(1, 21)]
